@@ -25,6 +25,8 @@ theorem frame_prefix_decode (buf : List Nat) (size : Nat) (cfg : Cfg) (pk : Pack
     (silkCalls cfg cfg.nfpp true st (decInit B S)).1 =
       packetEvs cfg pk (fun j => ((encRun (encInit buf size) (prefixOps cfg pk j)).rng,
         tell (encRun (encInit buf size) (prefixOps cfg pk j)))) ∧
+    (silkCalls cfg cfg.nfpp true st (decInit B S)).2.2.rng = (encRun (encInit buf size) (packetOps cfg pk)).rng ∧
+    tell (silkCalls cfg cfg.nfpp true st (decInit B S)).2.2 = tell (encRun (encInit buf size) (packetOps cfg pk)) ∧
     Reads (silkCalls cfg cfg.nfpp true st (decInit B S)).2.2 sig ∧
     DecAll B S (encRun (encInit buf size) (packetOps cfg pk ++ sig))
       (after (silkCalls cfg cfg.nfpp true st (decInit B S)).2.2 sig) B := by
@@ -93,7 +95,18 @@ theorem frame_prefix_decode (buf : List Nat) (size : Nat) (cfg : Cfg) (pk : Pack
   rw [hafter] at hall
   obtain ⟨q1, q2⟩ := silkCalls_any hok st (decInit B S) hmA
   rw [q1, q2]
-  refine ⟨?_, hmS, hall⟩
+  have hlkB := payload_lockstep buf size B S (headerBits cfg pk) (packetBody cfg pk) hbits (by rw [hlen]; exact hk1)
+    (by rw [hlen]; exact hk8) hleg hmA
+  rw [hlen, placeholder_eq] at hlkB
+  have hpr : (encRun (encInit buf size) (Op.icdf 0 (flagTable k) 8 :: (packetBody cfg pk ++ [Op.patchInitial word k]))).rng =
+        (encRun (encInit buf size) (Op.icdf 0 (flagTable k) 8 :: packetBody cfg pk)).rng ∧
+      (encRun (encInit buf size) (Op.icdf 0 (flagTable k) 8 :: (packetBody cfg pk ++ [Op.patchInitial word k]))).nbitsTotal =
+        (encRun (encInit buf size) (Op.icdf 0 (flagTable k) 8 :: packetBody cfg pk)).nbitsTotal := by
+    have e : Op.icdf 0 (flagTable k) 8 :: (packetBody cfg pk ++ [Op.patchInitial word k]) =
+        (Op.icdf 0 (flagTable k) 8 :: packetBody cfg pk) ++ [Op.patchInitial word k] := rfl
+    rw [e, encRun_append]
+    exact patch_rn _ _ _
+  refine ⟨?_, by rw [hlkB.1, hpr.1], by rw [hlkB.2]; exact (tell_congr hpr.1 hpr.2).symm, hmS, hall⟩
   apply packetEvs_congr
   intro j hj
   obtain ⟨rest, hrest⟩ := callsPrefix_split cfg pk hj
@@ -106,5 +119,63 @@ theorem frame_prefix_decode (buf : List Nat) (size : Nat) (cfg : Cfg) (pk : Pack
   unfold decAt prefixOps
   rw [hkk, ← hlen]
   rw [hlk.1, hlk.2]
+
+/-- The SILK payload followed by `sig` leaves no raw bits and does not resize the buffer; bit accounting holds. -/
+theorem sig_run_facts (buf : List Nat) (size : Nat) (cfg : Cfg) (pk : PacketIn) (sig : List Op) (hs : size ≤ buf.length)
+    (hb : BytesOk buf) (hok : PacketOk cfg pk) (hsigN : ∀ op ∈ sig, NoRawOp op)
+    (hsig : LegalRun (encRun (encInit buf size) (packetOps cfg pk)) sig)
+    (hnF : (encRun (encInit buf size) (packetOps cfg pk ++ sig)).nbitsTotal < 4294967296)
+    (herrF : (encRun (encInit buf size) (packetOps cfg pk ++ sig)).error = 0) :
+    RunInv (encRun (encInit buf size) (packetOps cfg pk ++ sig)) ∧
+    Acct (encRun (encInit buf size) (packetOps cfg pk ++ sig)) ∧
+    (encRun (encInit buf size) (packetOps cfg pk ++ sig)).endOffs = 0 ∧
+    (encRun (encInit buf size) (packetOps cfg pk ++ sig)).nendBits = 0 ∧
+    (encRun (encInit buf size) (packetOps cfg pk ++ sig)).storage = size := by
+  rw [encRun_append] at hnF herrF ⊢
+  have herrP : (encRun (encInit buf size) (packetOps cfg pk)).error = 0 := by
+    apply Classical.byContradiction; intro hne
+    exact encRun_error_mono sig _ hne herrF
+  have hnP : (encRun (encInit buf size) (packetOps cfg pk)).nbitsTotal < 4294967296 :=
+    Nat.lt_of_le_of_lt (encRun_nbits_mono sig _) hnF
+  obtain ⟨riP, acP, p0, p1, p2⟩ := packet_run_facts buf size cfg pk hs hb hok hnP herrP
+  obtain ⟨acF, riF⟩ := acct_run sig _ riP acP hsig hnF herrF
+  obtain ⟨n1, n2, n3⟩ := noRaw_run sig (encRun (encInit buf size) (packetOps cfg pk)) hsigN
+  exact ⟨riF, acF, n1.trans p0, n2.trans p1, n3.trans p2⟩
+
+theorem getD_take_append (a R : List Nat) (n i : Nat) (hn : n ≤ a.length) (hi : i < n) :
+    (a.take n ++ R).getD i 0 = a.getD i 0 := by
+  have hl : (a.take n).length = n := by rw [List.length_take]; omega
+  simp only [List.getD_eq_getElem?_getD]
+  rw [List.getElem?_append_left (by omega), List.getElem?_take, if_pos hi]
+
+theorem drop_take_append (a R : List Nat) (n : Nat) (hn : n ≤ a.length) : (a.take n ++ R).drop n = R := by
+  have hl : (a.take n).length = n := by rw [List.length_take]; omega
+  rw [List.drop_append, hl, Nat.sub_self, List.drop_zero, List.drop_eq_nil_of_le (by omega), List.nil_append]
+
+/-- (2) SILK-only Opus frame WITH redundancy. -/
+theorem opus_frame_lockstep_silk_red_all (buf : List Nat) (maxData bandwidth nCh ms10 spf48 : Nat) (pk : PacketIn) (st : SilkSt)
+    (c2s : Nat) (R : Bytes) (rr : Nat)
+    (hbw : bandwidth = 1101 ∨ bandwidth = 1102 ∨ bandwidth = 1103)
+    (hms : ms10 = 100 ∨ ms10 = 200 ∨ ms10 = 400 ∨ ms10 = 600)
+    (hs : maxData - 1 ≤ buf.length) (hb : BytesOk buf) (hok : PacketOk (silkCfg bandwidth nCh ms10) pk)
+    (hc2s : c2s ≤ 1) (hR : BytesOk R)
+    (hn : (encodeAll buf (maxData - 1) (packetOps (silkCfg bandwidth nCh ms10) pk ++ redSigOps false true 1 c2s R.length)).nbitsTotal < 4294967296)
+    (herr : (encodeAll buf (maxData - 1) (packetOps (silkCfg bandwidth nCh ms10) pk ++ redSigOps false true 1 c2s R.length)).error = 0)
+    (hfit : tell (encRun (encInit buf (maxData - 1)) (packetOps (silkCfg bandwidth nCh ms10) pk ++ redSigOps false true 1 c2s R.length)) ≤
+      8 * ((maxData - 1 : Nat) : Int))
+    (hgate : tell (encRun (encInit buf (maxData - 1)) (packetOps (silkCfg bandwidth nCh ms10) pk)) + 17 ≤
+      8 * (((tell (encRun (encInit buf (maxData - 1)) (packetOps (silkCfg bandwidth nCh ms10) pk ++ redSigOps false true 1 c2s R.length)) + 7) / 8) +
+        (R.length : Int)))
+    (hred : CeltFrameRT { start := 0, end_ := CeltSyms.endBandOf bandwidth, C := nCh, LM := 1 } R.length (decInit R R.length) rr) :
+    ∃ o, decodeOpusFrame 1000 bandwidth nCh ms10 false st
+        (silkRedFrame buf maxData (silkCfg bandwidth nCh ms10) pk c2s R rr).payload = .ok o ∧
+      o.redundancy = 1 ∧ o.celtToSilk = c2s ∧ o.redundancyBytes = R.length ∧ o.dec.error = 0 ∧
+      o.dec.rng = (encRun (encInit buf (maxData - 1)) (packetOps (silkCfg bandwidth nCh ms10) pk ++ redSigOps false true 1 c2s R.length)).rng ∧
+      o.evs = packetEvs (silkCfg bandwidth nCh ms10) pk (fun j =>
+        ((encRun (encInit buf (maxData - 1)) (prefixOps (silkCfg bandwidth nCh ms10) pk j)).rng,
+         tell (encRun (encInit buf (maxData - 1)) (prefixOps (silkCfg bandwidth nCh ms10) pk j)))) ∧
+      decRangeFinal 1000 bandwidth nCh spf48 (silkRedFrame buf maxData (silkCfg bandwidth nCh ms10) pk c2s R rr).payload o =
+        .ok (silkRedFrame buf maxData (silkCfg bandwidth nCh ms10) pk c2s R rr).rangeFinal := by
+  sorry
 
 end Opus.OpusFrameProofs
